@@ -1334,7 +1334,15 @@ class VectorVariable:
         if isinstance(other, MatrixVectorProduct):
             # Check if the MatrixVectorProduct's vector is self
             if isinstance(other.vector, VectorVariable):
-                if other.vector is self or other.vector.name == self.name:
+                # Same variables in the same order (views are compared element by
+                # element: x[::-1] and x[0:3] share a *name* but not an order)
+                if other.vector is self or (
+                    other.vector.size == self.size
+                    and all(
+                        a is b
+                        for a, b in zip(other.vector._variables, self._variables)
+                    )
+                ):
                     # This is x.dot(A @ x) - return QuadraticForm for O(1) gradient
                     return QuadraticForm(self, other.matrix)
 
